@@ -636,7 +636,7 @@ func rulePanicSites(c *Ctx, rule string, fns []*ssa.Function) {
 				}
 				bad = append(bad, "panic at "+w.instrPos(in)+" in "+fname(fn))
 			case *ssa.TypeAssert:
-				if !x.CommaOk {
+				if !x.CommaOk && !w.homogeneousPoolGet(x) {
 					bad = append(bad, "single-value type assertion at "+w.instrPos(in)+" in "+fname(fn))
 				}
 			}
@@ -861,4 +861,92 @@ func checkTypedNil(c *Ctx, rule string, fn *ssa.Function, r *ssa.Return, v ssa.V
 		}
 	}
 	visit(v, r)
+}
+
+// homogeneousPoolGet: ta is pool.Get().(T) on a package-level sync.Pool that can only ever
+// yield a T: its New function is set where the pool is declared and returns a T on every path,
+// every Put on that pool in the module puts a T, and the pool's address goes nowhere else.
+func (w *World) homogeneousPoolGet(ta *ssa.TypeAssert) bool {
+	call, ok := ta.X.(*ssa.Call)
+	if !ok || stdCallee(&call.Call) != "(*sync.Pool).Get" || len(call.Call.Args) != 1 {
+		return false
+	}
+	g, ok := call.Call.Args[0].(*ssa.Global)
+	if !ok || g.Pkg == nil || !strings.HasPrefix(g.Pkg.Pkg.Path(), modPath) {
+		return false
+	}
+	isT := func(v ssa.Value) bool {
+		mi, ok := v.(*ssa.MakeInterface)
+		return ok && types.Identical(mi.X.Type(), ta.AssertedType)
+	}
+	newOK := false
+	for _, fn := range w.ModFns {
+		if fn.Pkg != g.Pkg {
+			continue
+		}
+		w.eachInstr(fn, func(in ssa.Instruction) {
+			st, ok := in.(*ssa.Store)
+			if !ok {
+				return
+			}
+			fa, ok := st.Addr.(*ssa.FieldAddr)
+			if !ok || fa.X != ssa.Value(g) || derefStruct(fa.X.Type()).Field(fa.Field).Name() != "New" {
+				return
+			}
+			var body *ssa.Function
+			switch v := st.Val.(type) {
+			case *ssa.MakeClosure:
+				body, _ = v.Fn.(*ssa.Function)
+			case *ssa.Function:
+				body = v
+			}
+			if body == nil || fn.Name() != "init" {
+				newOK = false
+				return
+			}
+			all := len(returnsOf(body)) > 0
+			for _, r := range returnsOf(body) {
+				if len(r.Results) != 1 || !isT(r.Results[0]) {
+					all = false
+				}
+			}
+			newOK = all
+		})
+	}
+	if !newOK {
+		return false
+	}
+	good := true
+	if g.Referrers() != nil {
+		return false // globals have no referrer lists; be safe if that ever changes
+	}
+	for _, fn := range w.ModFns {
+		w.eachInstr(fn, func(in ssa.Instruction) {
+			for _, op := range in.Operands(nil) {
+				if *op != ssa.Value(g) {
+					continue
+				}
+				switch x := in.(type) {
+				case *ssa.FieldAddr:
+					// only the New field, written in init (checked above); any other field access is odd
+					if derefStruct(x.X.Type()).Field(x.Field).Name() != "New" || fn.Name() != "init" {
+						good = false
+					}
+				case ssa.CallInstruction:
+					switch stdCallee(x.Common()) {
+					case "(*sync.Pool).Get":
+					case "(*sync.Pool).Put":
+						if len(x.Common().Args) != 2 || !isT(x.Common().Args[1]) {
+							good = false
+						}
+					default:
+						good = false
+					}
+				default:
+					good = false
+				}
+			}
+		})
+	}
+	return good
 }
